@@ -13,7 +13,11 @@ CVC5_TLIMIT_MS = 20000
 
 def _translate(smt: str) -> str:
     # z3 dialect -> SMT-LIB 2.6 as cvc5 1.0 accepts it
-    smt = smt.replace("bv2int", "bv2nat")
+    smt = smt.replace("bv2int", "bv2nat").replace("ubv_to_int", "bv2nat").replace("int_to_bv", "int2bv")
+    # z3 splits seq.nth into an in-bounds part and an unspecified part; cvc5's seq.nth is total with an
+    # unspecified (but functional) value out of bounds, which is the same thing
+    smt = smt.replace("seq.nth_u", "seq.nth").replace("seq.nth_i", "seq.nth")
+    smt = smt.replace("'", "_prime")  # z3 accepts ' inside simple symbols, SMT-LIB does not
     smt = re.sub(r"\(declare-fun (\S+) \(\) ", r"(declare-const \1 ", smt)
     if "(set-logic" not in smt:
         smt = "(set-logic ALL)\n" + smt
